@@ -353,7 +353,6 @@ func variadicElems(c *Ctx, sliceX *X) []*X {
 func c12Client(c *Ctx) {
 	const cl = "find/client"
 	f := c.Func(cl, "DHashClient.FindAsync")
-	fm := c.Func(cl, "DHashClient.fetchMetadata")
 	if f == nil {
 		c.Unk("C12.D5-client-workflow", "find/client.(*DHashClient).FindAsync", token.NoPos, "not found")
 		return
@@ -378,26 +377,50 @@ func c12Client(c *Ctx) {
 		return
 	}
 	pid, ctxID, spErr := c.Result(split[0], 0), c.Result(split[0], 1), c.Result(split[0], 2)
-	var fetch *CallSite
-	for _, cs := range c.Calls(f.SSA, Any()) {
-		if fm != nil && cs.In.Common().StaticCallee() == fm.SSA {
-			cs := cs
-			fetch = &cs
-		}
-	}
-	if fetch == nil {
+	// the metadata step — look the value key's hash up, decrypt the answer with the value key — either inline or in
+	// an unexported helper of the client: both calls are looked up through helpers, in FindAsync's terms
+	fmds := c.CallsInl(f.SSA, Invoke("DHStoreAPI.FindMetadata"), 2)
+	dmds := c.CallsInl(f.SSA, Call("dhash.DecryptMetadata"), 2)
+	if len(fmds) != 1 || len(dmds) != 1 {
 		c.Bad("C12.D5-client-workflow", key+" › metadata fetch", f.SSA.Pos(), "metadata is not fetched through the decrypting helper")
 		return
 	}
-	_, g1 := c.Guarded(fetch.In, EqNil(Is(spErr)), true)
-	_, a1 := Match(Is(vk), fetch.X.Args[2])
-	c.Check(g1 && a1, "C12.D5-client-workflow", key+" › metadata fetched for that value key", fetch.In.Pos(), "fetchMetadata(vk) on SplitValueKey err == nil", "metadata fetched with another key or although splitting failed")
-	md, mdErr := c.Result(*fetch, 0), c.Result(*fetch, 1)
+	fmdS, dmdS := fmds[0], dmds[0]
+	fmdRes0 := Extract("0", Is(c.E(fmdS.In.(*ssa.Call))))
+	okStep := false
+	if len(fmdS.X.Args) >= 3 && len(dmdS.X.Args) == 2 {
+		_, a := Match(Call("dhash.SHA256", Is(vk), Op("nil", "")), fmdS.X.Args[len(fmdS.X.Args)-1])
+		_, b := Match(fmdRes0, dmdS.X.Args[0])
+		_, d := Match(Is(vk), dmdS.X.Args[1])
+		_, g := c.Guarded(dmdS.In, EqNil(Extract("1", Is(c.E(fmdS.In.(*ssa.Call))))), true)
+		okStep = a && b && d && g
+	}
+	_, g1 := c.Guarded(fmdS.Outer(), EqNil(Is(spErr)), true)
+	c.Check(g1 && okStep, "C12.D5-client-workflow", key+" › metadata fetched for that value key", fmdS.Outer().Pos(), "FindMetadata(SHA256(vk)) then DecryptMetadata(answer, vk), on SplitValueKey err == nil", "metadata fetched with another key, not decrypted with the value key, or fetched although splitting failed")
+	// the decrypted metadata and the error(s) that must be nil where it is used
+	var md *X
+	var mdErrs []*X
+	if len(dmdS.Via) > 0 {
+		outer := dmdS.Via[0].(*ssa.Call)
+		cs := CallSite{In: outer, Fn: outer.Parent(), X: c.CallX(outer)}
+		md, mdErrs = c.Result(cs, 0), []*X{c.Result(cs, 1)}
+	} else {
+		md = c.Result(dmdS.CallSite, 0)
+		mdErrs = []*X{c.Result(dmdS.CallSite, 1), c.Result(fmdS.CallSite, 1)}
+	}
+	mdOK := func(in ssa.Instruction) bool {
+		for _, e := range mdErrs {
+			if _, g := c.Guarded(in, EqNil(Is(e)), true); !g {
+				return false
+			}
+		}
+		return true
+	}
 	// uses of the results
 	nUse := 0
 	for _, cs := range c.Calls(f.SSA, Call("pcache.ProviderCache).GetResults")) {
 		nUse++
-		_, g := c.Guarded(cs.In, EqNil(Is(mdErr)), true)
+		g := mdOK(cs.In)
 		same := Same(cs.X.Args[2], pid) && Same(cs.X.Args[3], ctxID) && Same(cs.X.Args[4], md)
 		c.Check(g && same, "C12.D5-client-workflow", key+" › providers expanded for (peer, context, metadata)", cs.In.Pos(), "GetResults(pid, ctxID, metadata) with the decrypted values, on err == nil", "provider expansion uses other values than the ones decrypted, or runs although decryption failed")
 	}
@@ -413,21 +436,8 @@ func c12Client(c *Ctx) {
 		}
 		fs := c.CellFields(v)
 		okF := fs["ContextID"] != nil && Same(fs["ContextID"], ctxID) && fs["Metadata"] != nil && Same(fs["Metadata"], md)
-		_, g := c.Guarded(ss.At, EqNil(Is(mdErr)), true)
+		g := mdOK(ss.At)
 		c.Check(okF && g, "C12.D5-client-workflow", key+" › metadata-only result", ss.Pos, "result carries the decrypted context ID and metadata, on err == nil", "metadata-only result not built from the decrypted values")
-	}
-	if fm != nil {
-		k2 := fm.Name
-		vkp := Op("param", fm.SSA.Params[2].Name())
-		fmd := c.Calls(fm.SSA, Invoke("DHStoreAPI.FindMetadata", Any(), Any(), Call("dhash.SHA256", vkp, Op("nil", ""))))
-		dmd := c.Calls(fm.SSA, Call("dhash.DecryptMetadata", Any(), vkp))
-		ok := len(fmd) == 1 && len(dmd) == 1
-		if ok {
-			_, ok = Match(Extract("0", Is(c.E(fmd[0].In.(*ssa.Call)))), dmd[0].X.Args[0])
-			_, g := c.Guarded(dmd[0].In, EqNil(Extract("1", Is(c.E(fmd[0].In.(*ssa.Call))))), true)
-			ok = ok && g
-		}
-		c.Check(ok, "C12.D5-client-workflow", k2+" › lookup by hash(vk), decrypt with vk", fm.SSA.Pos(), "FindMetadata(SHA256(vk)) then DecryptMetadata(result, vk) on err == nil", "metadata not looked up by the hash of the value key / not decrypted with the value key")
 	}
 	// what the store answers is what is decrypted: the HTTP store client hands on everything read from the response
 	// body itself (a capped or wrapped read truncates large encrypted metadata and the result is silently skipped)
@@ -443,7 +453,7 @@ func c12Client(c *Ctx) {
 			c.Check(whole, "C12.D5-client-workflow", f.Name+" › reads the whole response body", cs.In.Pos(), "io.ReadAll(resp.Body)", "the store client does not read the response body itself to its end ("+abbreviate(cs.X.Args[0].String())+"): encrypted values larger than the cap come back truncated and the lookup silently returns fewer results than were indexed")
 		}
 	}
-	c.Floor("C12.D5-client-workflow", 9)
+	c.Floor("C12.D5-client-workflow", 8)
 }
 
 func c12ValueKey(c *Ctx) {
